@@ -68,6 +68,7 @@ THEOREMS = [
     "Nix.C04.history4_delete",
     "Nix.C04.dimLink_after_delete",
     "Nix.C04.delete_by_object",
+    "Nix.C04.source_delete_by_object",
     "Nix.C04.delete_by_object_any_container",
     "Nix.C04.delete_by_object_wrong_class",
     "Nix.C04.delete_by_object_others_stay",
@@ -171,7 +172,7 @@ LINK_OWNERS = {"data_array": [("group", "data_arrays"), ("tag", "references"), (
                "source": [("group", "sources"), ("data_array", "sources"), ("tag", "sources"),
                           ("multi_tag", "sources")]}
 DEL_KIND_WEIGHTS = [("data_array", 24), ("data_frame", 10), ("source", 16), ("section", 16), ("tag", 8),
-                    ("multi_tag", 8), ("group", 5), ("block", 2), ("feature", 8), ("property", 9)]
+                    ("multi_tag", 8), ("group", 5), ("block", 2), ("feature", 12), ("property", 9)]
 # storegen's tables plus the data-frame containers (Block.data_frames, Group.data_frames)
 CONTAINERS4 = dict(storegen.CONTAINERS)
 CONTAINERS4["block"] = storegen.CONTAINERS["block"] + ["data_frames"]
@@ -341,7 +342,7 @@ class DelGen(storegen.Gen):
                 self.do(["set_role", s1.path, "link", s2.path])
                 self.do(["role", s1.path, "link"])
                 self.count("role")
-        elif r < 0.8:
+        elif r < 0.72:
             da = self.pick(ents, "data_array")
             if da is None:
                 return
@@ -577,6 +578,13 @@ class DelGen(storegen.Gen):
                 if (o.kind, cname) in LINK_CONTS4:
                     cands.append((o, cname))
         rng.shuffle(cands)
+        # link lists that have entries first (looked at without recording an op), so that an unlink step unlinks
+        def filled(oc):
+            try:
+                return len(self.impl.container(self.impl.nav(oc[0].path), oc[1])) > 0
+            except Exception:
+                return False
+        cands = [oc for oc in cands if filled(oc)][:6] + cands[:2]
         for o, cname in cands[:8]:
             out = self.do(["list", o.path, cname])
             items = out.get("ok") or []
